@@ -36,7 +36,7 @@ TOL = 2e-5
 
 
 def gen_cases(seed, tier):
-    return sampling.gen_cases(seed, tier, 1, 110, 1600)
+    return sampling.gen_cases(seed, tier, 1, 340, 3000)
 
 
 def _kcls(k):
